@@ -1955,6 +1955,380 @@ def _stale_table_rule(chk, ldr, io_):
         raise AnchorMissing("DocumentSetPreparator: no statement that (re)creates a document file was located")
 
 
+# ---- O3.11 the skipper's contract on values (seed m15) ---------------------------------------------------------------------------------------------------------------------
+# `_Sim` above takes io.skip_lines as a CONTRACT (its stand-in moves the source n lines ahead). This rule decides the contract itself: skip_lines is run by the evaluator on a
+# byte-positioned stand-in of the data file (lines of different byte lengths, multi-byte content) in a file system the rule controls, with an offset table that the table
+# class's own writer wrote (entries at a stride the rule chooses - what a table holds is O3.7's business, how the skipper uses it is this rule's).
+
+_SKIP_LINES = [("{\"n\": %d, \"t\": \"%s\"}\n" % (i, "é中"[i % 2] * (i % 4))).encode("utf-8") for i in range(12)]
+_SKIP_STRIDE = 3
+_SKIP_CASES = [("without an offset table", False, (1, 5, 12)), ("nothing to skip", True, (0,)), ("first line before the first table entry", True, (1, 2)),
+               ("first line exactly on a table entry", True, (3, 6, 9)), ("first line between two table entries", True, (4, 5, 8)), ("first line behind the last table entry", True, (10, 11, 12))]
+
+
+class _ByteFile:
+    """stand-in for an opened data file (what MmapSource / open(.., 'rb') offer): a byte position, seek / tell / readline / readlines."""
+
+    def __init__(self, lines):
+        self.data, self.pos, self.calls = b"".join(lines), 0, []
+        self.obj = _Obj(None, None, {"seek": _stub(self.seek), "tell": _stub(lambda: self.pos), "readline": _stub(self.readline), "readlines": _stub(self.readlines),
+                                     "close": _stub(lambda: None)}, "data file")
+
+    def seek(self, off, whence=0):
+        if not isinstance(off, int) or isinstance(off, bool) or whence != 0 or off < 0:
+            raise _Raised("ValueError", f"seek({off!r}, {whence!r})")
+        self.calls.append(("seek", off))
+        self.pos = min(off, len(self.data))
+        return self.pos
+
+    def readline(self, *a):
+        if a:
+            raise _Cannot("readline(<size>) on the stand-in data file")
+        end = self.data.find(b"\n", self.pos)
+        end = len(self.data) if end < 0 else end + 1
+        out, self.pos = self.data[self.pos:end], end
+        self.calls.append(("readline", len(out)))
+        return out
+
+    def readlines(self, n=None):
+        if n is not None and (not isinstance(n, int) or isinstance(n, bool)):
+            raise _Raised("TypeError", f"readlines({n!r})")
+        out = []
+        while self.pos < len(self.data) and (n is None or len(out) < n):
+            out.append(self.readline())
+        return out
+
+
+class _TextFiles:
+    """the rule's file system for small text files (the offset table): open() for writing / reading, print(.., file=) and write(), iteration line by line, existence tests."""
+
+    def __init__(self, existing=()):
+        self.text: dict = {}
+        self.existing = set(existing)
+        self.handles: dict = {}
+
+    def exists(self, p):
+        if not isinstance(p, str):
+            raise _Cannot("existence test of a path without representative value")
+        return p in self.text or p in self.existing
+
+    def open(self, path, mode="r", *a, **k):
+        if not isinstance(path, str) or not isinstance(mode, str):
+            raise _Cannot("open() of a path / mode without representative value")
+        if "b" in mode or "+" in mode:
+            raise _Cannot(f"open(.., {mode!r}) in the rule's file system")
+        if "w" in mode:
+            self.text[path] = ""
+        elif "a" in mode:
+            self.text.setdefault(path, "")
+        elif path not in self.text:
+            raise _Raised("FileNotFoundError", path)
+        st = {"path": path, "write": "w" in mode or "a" in mode, "at": 0, "open": True}
+
+        def lines():
+            return self.text[path].splitlines(keepends=True)
+
+        def write(s):
+            if not st["write"] or not st["open"] or not isinstance(s, str):
+                raise _Raised("ValueError", "write() on a table file that is not open for writing")
+            self.text[path] += s
+            return len(s)
+
+        def take():
+            rest = lines()[st["at"]:]
+            st["at"] += len(rest)
+            return rest
+
+        def readline():
+            ls = lines()
+            if st["at"] < len(ls):
+                st["at"] += 1
+                return ls[st["at"] - 1]
+            return ""
+
+        def close():
+            st["open"] = False
+
+        obj = _Obj(None, None, {"write": _stub(write), "__iter__": _stub(take), "readlines": _stub(take), "readline": _stub(readline), "close": _stub(close),
+                                "read": _stub(lambda: "".join(take())), "flush": _stub(lambda: None)}, f"text file {path}")
+        obj.native["__enter__"] = _stub(lambda: obj)
+        obj.native["__exit__"] = _stub(lambda *a_: close() or False)
+        self.handles[id(obj)] = write
+        return obj
+
+    def print(self, *args, sep=" ", end="\n", file=None, flush=False):
+        if file is None:
+            return None
+        w = self.handles.get(id(file))
+        if w is None:
+            raise _Cannot("print(.., file=) to something that is not a file of the rule's file system")
+        if not all(isinstance(x, (str, int, float)) for x in args):
+            raise _Cannot("print() of a value without representative text")
+        w(sep.join(str(x) for x in args) + end)
+        return None
+
+    def install(self, m):
+        m.special["open"] = _stub(self.open)
+        m.special["print"] = _stub(self.print)
+        for nm in ("os.path.exists", "os.path.isfile", "os.path.lexists"):
+            m.ext[nm] = _stub(self.exists)
+        m.ext["os.path.getmtime"] = _stub(lambda p: 1)
+
+
+def _skipper_rule(chk, io_, pr):
+    chk.rule("O3.11", "skipper contract, on values: after skip_lines(path, source, n) on a source at position 0 the source stands at the first byte of line n (the next line it hands out "
+             "is the client group's first one) - without an offset table, and with a table (written by the table class's own writer) whose entries lie before, exactly on and behind "
+             "line n", 6,
+             "a client group whose first line is exactly a line recorded in the offset table (every 50,000th line: 200,000 documents with 2 / 4 clients) reads from the start of the file "
+             "(or one entry / one line off): the first slice is ingested twice, its own never - bulk sizes, pairing and the bulk budget all look right")
+    # role: the skipper = the io function the parameter source hands (file name, opened source, number of lines) to
+    io_path = io_.modname
+    called = []
+    for c in [c for f in pr.functions() for c in source.calls_in(f)]:
+        d = dotted(c.func)
+        if d is None or "." not in d:
+            continue
+        head, _, rest = d.partition(".")
+        if pr.imports.get(head) == io_path and isinstance(io_.index().get(rest), source.FUNC_TYPES) and len(c.args) + len(c.keywords) == 3 \
+                and len(params_of(io_.index()[rest])) == 3:
+            called.append((c, io_.index()[rest]))
+    sks = {id(f): f for _, f in called if any(isinstance(x, ast.Attribute) and x.attr in ("seek", "readline") for x in ast.walk(f))}
+    if len(sks) != 1:
+        raise AnchorMissing(f"{_I}: the function the bulk parameter source calls to forward an opened file source by a number of lines (skip_lines)")
+    sk = next(iter(sks.values()))
+    call = next(c for c, f in called if f is sk)
+    if call.keywords or any(isinstance(a, ast.Starred) for a in call.args):
+        raise AnchorMissing(f"{_P}: the arguments of the call of io.{sk.name} (file name, source, number of lines) are not positional")
+    FT = io_.index().get("FileOffsetTable")
+    if not isinstance(FT, ast.ClassDef):
+        raise AnchorMissing(f"{_I}: the offset table class (FileOffsetTable) is not located")
+    path = _SAMPLE
+    offs = [sum(len(x) for x in _SKIP_LINES[:n]) for n in range(len(_SKIP_LINES) + 1)]  # offs[n]: the byte at which line n (0-based) starts == tell() after n lines
+    entries = [(n, offs[n]) for n in range(_SKIP_STRIDE, len(_SKIP_LINES), _SKIP_STRIDE)]
+
+    def machine(fsys):
+        m = _M(io_, None, None, None, budget=60000)
+        m.strict_effects = True
+        fsys.install(m)
+        return m
+
+    def written_table():
+        """{path: text} of the table files the class's own writer produces for `entries`: the factory whose object opens its file for writing, entered, handed every entry."""
+        for fac in [f for f in io_.methods(FT).values() if any(_last(d) == "classmethod" for d in f.decorator_list) and len(_own_params(f)) == 1]:
+            fsys = _TextFiles({path})
+            m = machine(fsys)
+            try:
+                t = m.apply(m.getattr(_Cls(FT), fac.name), [path], {})
+                if not isinstance(t, _Obj) or t.cls is None:
+                    continue
+                m.apply(m.getattr(t, "__enter__"), [], {})
+                if not fsys.text:
+                    continue  # (this factory's object reads)
+                adders = [f for f in io_.methods(FT).values() if len(_own_params(f)) == 2 and not any(_last(d) in ("classmethod", "staticmethod") for d in f.decorator_list)
+                          and f.name != "__init__" and not any(isinstance(x, ast.Return) and x.value is not None for x in walk_body(f))]
+                if len(adders) != 1:
+                    raise _Cannot("the table's method that records one (line number, offset) pair")
+                for n, o in entries:
+                    m.apply(m.getattr(t, adders[0].name), [n, o], {})
+                m.apply(m.getattr(t, "__exit__"), [None, None, None], {})
+                return dict(fsys.text)
+            except _Raised as x:
+                raise _Cannot(f"the table's writer raises {x}")
+        raise _Cannot("no factory of the table class yields an object that opens its file for writing")
+
+    try:
+        table = written_table()
+    except _Cannot as x:
+        chk.unknown("O3.11", f"FileOffsetTable: a table cannot be written through the class's own writer in the rule's file system: {x}", FT)
+        return
+    if not table or not all(v.strip() for v in table.values()):
+        chk.unknown("O3.11", f"FileOffsetTable: the writer leaves no entries in the rule's file system (files: {sorted(table)})", FT)
+        return
+    for label, with_table, targets in _SKIP_CASES:
+        wrong, cannot = [], None
+        for n in targets:
+            fsys = _TextFiles({path})
+            if with_table:
+                fsys.text.update(table)
+            bf = _ByteFile(_SKIP_LINES)
+            m = machine(fsys)
+            try:
+                m.apply(_FnDef(sk), [path, bf.obj, n], {})
+            except _Raised as x:
+                wrong.append(f"skipping {n} line(s) raises {x}")
+                continue
+            except _Cannot as x:
+                cannot = f"skipping {n} line(s): {x}"
+                break
+            if bf.pos != offs[n]:
+                at = [k for k, o in enumerate(offs) if o == bf.pos]
+                wrong.append(f"after skipping {n} line(s) the source stands at byte {bf.pos} ({'the start of line ' + str(at[0]) if at else 'inside a line'}), line {n} starts at byte {offs[n]} "
+                             f"[calls on the source: {', '.join(f'{a}({b})' if a == 'seek' else a for a, b in bf.calls[:4]) or 'none'}{' ...' if len(bf.calls) > 4 else ''}]")
+        if cannot is not None and not wrong:
+            chk.unknown("O3.11", f"io.{sk.name} cannot be evaluated ({label}): {cannot}", sk)
+            continue
+        chk.ob("O3.11", f"{label}: the source stands at the group's first line", not wrong, sk,
+               "; ".join(wrong[:2]) if wrong else f"skipping {', '.join(map(str, targets))} of {len(_SKIP_LINES)} lines" + (f", table entries {entries}" if with_table else ""),
+               key=f"{_I}:{sk.name}:position:{label}")
+
+
+# ---- O3.12 one parameter source per task and worker (seed m13) -------------------------------------------------------------------------------------------------------------
+# `_Sim` drives ONE parameter source per worker and task through the driver's contract. This rule decides that the load generator honours that contract: the loop that turns a
+# worker's client allocations into schedules is run by the evaluator on model allocations; the parameter sources are stand-ins that record who asked for them and who registered.
+
+_D = "esrally/driver/driver.py"
+
+
+class _TolerantM(_M):
+    """the driver's machine for O3.12: what cannot be evaluated (event loop, ES clients, logging, schedulers) is skipped - the rule observes only the calls that reach its stand-ins
+    (creation of a parameter source, partition()); every skipped expression that was handed a mutable object of the evaluated world is remembered (`skipped`, with whether it was handed a dict as a whole)."""
+
+    def __init__(self, *a, **k):
+        super().__init__(*a, **k)
+        self.skipped: list = []
+
+    def touches_mutable(self, e, env) -> bool:
+        if _M.touches_mutable(self, e, env) and not _is_logging(e):
+            # (handed a dict as a whole - receiver or argument: possibly the table of parameter sources itself; an element read from it is not)
+            whole = any(isinstance(self.peek(c, env), dict) for n in ast.walk(e) if isinstance(n, ast.Call)
+                        for c in list(n.args) + [k.value for k in n.keywords] + ([n.func.value] if isinstance(n.func, ast.Attribute) else []))
+            self.skipped.append((e, whole))
+        return False
+
+
+def _source_per_task_rule(chk, drv):
+    chk.rule("O3.12", "in a worker every task gets its OWN parameter source and the co-located clients of one task share it: the load generator's allocation loop, run on model "
+             "allocations (two tasks of a parallel element that reference the same operation, a third task with its own; one worker for all clients, a worker hosting the last client "
+             "of one task and the first of the other), creates a source per task and calls partition(index in task, clients of the task) once per allocation on the source created "
+             "for exactly that allocation's task", 3,
+             "two bulk tasks of a parallel element that use the same operation share one partitioned source when clients of both live in one worker: together they drain the corpus "
+             "once (each task ingests about half of it), a worker hosting clients {n-1, 0} reads the whole corpus - documents missing and duplicated per task")
+    AD = drv.index().get("AsyncIoAdapter")
+    run_ = drv.methods(AD).get("run") if isinstance(AD, ast.ClassDef) else None
+    init = drv.methods(AD).get("__init__") if isinstance(AD, ast.ClassDef) else None
+    TA = drv.index().get("TaskAllocation")
+    if run_ is None or init is None or not isinstance(TA, ast.ClassDef):
+        raise AnchorMissing(f"{_D}: the load generator's adapter (AsyncIoAdapter.__init__ / run) and the allocation record (TaskAllocation)")
+    creators = sorted({k for k, v in drv.imports.items() if v in ("esrally.track", "esrally.track.loader", "esrally.track.operation_parameters", "esrally.track.loader.operation_parameters")})
+    if not creators:
+        raise AnchorMissing(f"{_D}: the import through which the parameter source of a task is created (track.operation_parameters)")
+
+    op_shared = _Obj(None, {"name": "bulk", "type": "bulk", "params": {}, "param_source": None, "meta_data": {}}, None, "operation bulk")
+    op_other = _Obj(None, {"name": "bulk-other", "type": "bulk", "params": {}, "param_source": None, "meta_data": {}}, None, "operation bulk-other")
+    op_shared.frozen = op_other.frozen = True
+
+    def task(name, op, clients):
+        t = _Obj(None, {"name": name, "operation": op, "clients": clients, "warmup_time_period": None, "time_period": None, "warmup_iterations": None, "iterations": None,
+                        "ramp_up_time_period": None, "schedule": "deterministic", "params": {}, "tags": [], "meta_data": {}, "completes_parent": False, "any_completes_parent": False,
+                        "target_throughput": None, "ignore_response_error_level": None}, {"error_behavior": _stub(lambda *a, **k: "continue")}, f"task {name}")
+        return t
+
+    tasks = {"A": task("index-a", op_shared, 3), "B": task("index-b", op_shared, 3), "C": task("index-c", op_other, 2)}
+    # (global client id, task, index in task) of the whole parallel element; a layout is the subset one worker hosts
+    everyone = [(0, "A", 0), (1, "A", 1), (2, "A", 2), (3, "B", 0), (4, "B", 1), (5, "B", 2), (6, "C", 0), (7, "C", 1)]
+    layouts = [("one worker hosts all clients", everyone), ("a worker hosts the last client of one task and the first of the other", [everyone[2], everyone[3], everyone[6]]),
+               ("a worker hosts clients of one task only", everyone[:2])]
+    ta_params = _own_params(drv.methods(TA).get("__init__")) if drv.methods(TA).get("__init__") is not None else None
+    init_params = _own_params(init)
+
+    def evaluate(hosted):
+        """[(allocation (task key, index), source the allocation registered with, arguments of partition())], {id(source): task key it was created for}, skipped expressions."""
+        created: dict = {}
+        sources: list = []
+        registered: list = []
+        current = [None]
+
+        def make_source(*a, **k):
+            ts = [x for x in list(a) + list(k.values()) if isinstance(x, _Obj) and any(x is t for t in tasks.values())]
+            if len(ts) != 1:
+                raise _Cannot("the creation of a parameter source is not handed exactly one task")
+            key = next(kk for kk, t in tasks.items() if t is ts[0])
+            src = _Obj(None, {"infinite": False, "percent_completed": None, "task_progress": None}, None, f"parameter source #{len(sources)} (created for task {key})")
+
+            def partition(*pa, **pk):
+                registered.append((current[0], src, tuple(pa) + tuple(pk.values())))
+                return _Obj(None, {"infinite": False, "percent_completed": None, "task_progress": None}, {"params": _stub(lambda: {}), "size": _stub(lambda: 1)}, f"partition of #{sources.index(src)}")
+
+            src.native["partition"] = _stub(partition)
+            sources.append(src)
+            created[id(src)] = key
+            return src
+
+        ext = {}
+        for al in creators:
+            path_ = drv.imports[al]
+            ext[path_ if path_.endswith("operation_parameters") else f"{path_}.operation_parameters"] = _stub(make_source)
+        m = _TolerantM(drv, None, None, ext, budget=400000)
+        cfg = _Obj(None, None, {"opts": _stub(lambda *a, **k: k.get("default_value", False))}, "config")
+        allocs = []
+        for gid, tk, idx in hosted:
+            vals = {"task": tasks[tk], "client_index_in_task": idx, "global_client_index": gid, "total_clients": len(everyone)}
+            if ta_params is None or set(ta_params) != set(vals):
+                raise _Cannot(f"TaskAllocation.__init__ takes {ta_params}")
+            ta = m.apply(_Cls(TA), [], vals)
+            ta.c03_key = (tk, idx)
+            allocs.append((gid, ta))
+        known = {"cfg": cfg, "track": _Obj(None, {"name": "model", "corpora": []}, None, "track"), "task_allocations": allocs, "sampler": _Obj(None, None, None, "sampler"),
+                 "cancel": _Obj(None, None, {"is_set": _stub(lambda: False)}, "cancel"), "complete": _Obj(None, None, {"is_set": _stub(lambda: False)}, "complete"),
+                 "abort_on_error": False, "client_contexts": {}, "worker_id": 0}
+        if not set(init_params) <= set(known) or "task_allocations" not in init_params:
+            raise _Cannot(f"AsyncIoAdapter.__init__ takes {init_params}")
+        adapter = m.apply(_Cls(AD), [], {k: v for k, v in known.items() if k in init_params})
+
+        # which allocation is being served when a source is asked to partition: the one the code took last from its list of allocations
+        # the allocations are consumed in order: wrap them so that taking the next pair tells the rule whose turn it is
+        def gen():
+            for pair in allocs:
+                current[0] = pair[1]
+                yield pair
+
+        holder = [k for k, v in adapter.attrs.items() if v is allocs]
+        if len(holder) != 1:
+            raise _Cannot("the attribute of the adapter that holds the client allocations")
+        adapter.attrs[holder[0]] = _Obj(None, None, {"__iter__": _stub(gen), "__len__": _stub(lambda: len(allocs))}, "client allocations of this worker")
+        env = {params_of(run_)[0]: adapter, "__fn__": run_, "__class__": AD, "__self__": adapter}
+        try:
+            m.exec(run_.body, env)
+        except _Raised as x:
+            raise _Cannot(f"the allocation loop raises {x}")
+        return registered, created, list(m.skipped)
+
+    results = []
+    for label, hosted in layouts:
+        try:
+            results.append((label, hosted) + evaluate(hosted))
+        except _Cannot as x:
+            chk.unknown("O3.12", f"AsyncIoAdapter.run cannot be evaluated on model allocations ({label}): {x}", run_)
+            return
+    # located first: every allocation registered (else the shape is not recognised), judged second
+    for label, hosted, registered, created, skipped in results:
+        seen = [getattr(a, "c03_key", None) for a, _, _ in registered]
+        if sorted(seen, key=str) != sorted([(tk, idx) for _, tk, idx in hosted], key=str):
+            chk.unknown("O3.12", f"AsyncIoAdapter.run ({label}): the evaluated loop does not register every hosted allocation exactly once with a parameter source (registered: {seen})", run_)
+            return
+    foreign, split, args_wrong = [], [], []
+    relevant_skips = []
+    for label, hosted, registered, created, skipped in results:
+        by_task: dict = {}
+        for a, src, pa in registered:
+            tk, idx = a.c03_key
+            if created[id(src)] != tk:
+                foreign.append(f"{label}: client {idx} of task {tasks[tk].attrs['name']} registers with the {src.label}")
+            by_task.setdefault(tk, []).append(src)
+            if tuple(pa) != (idx, tasks[tk].attrs["clients"]):
+                args_wrong.append(f"{label}: client {idx} of {tasks[tk].attrs['clients']} of task {tasks[tk].attrs['name']} registers as partition{tuple(pa)!r}")
+        for tk, srcs in by_task.items():
+            if any(s is not srcs[0] for s in srcs):
+                split.append(f"{label}: the {len(srcs)} co-located clients of task {tasks[tk].attrs['name']} register with {len({id(s) for s in srcs})} different sources")
+        relevant_skips += [short(e, 60) for e, whole_dict in skipped if whole_dict]
+    chk.ob("O3.12", "no two tasks share a parameter source (tasks that reference the same operation included)", not foreign, run_, "; ".join(foreign[:2]), key=f"{_D}:AsyncIoAdapter.run:source-per-task")
+    if split and relevant_skips:
+        chk.unknown("O3.12", f"AsyncIoAdapter.run: whether co-located clients of a task share their source is not decided - not evaluated: {relevant_skips[:2]}", run_)
+    else:
+        chk.ob("O3.12", "the co-located clients of one task register with ONE source (the group's bulk budget and reader chain)", not split, run_, "; ".join(split[:2]), key=f"{_D}:AsyncIoAdapter.run:source-shared-in-task")
+    chk.ob("O3.12", "every allocation registers as (its index in the task, the task's clients)", not args_wrong, run_, "; ".join(args_wrong[:2]), key=f"{_D}:AsyncIoAdapter.run:partition-arguments")
+
+
 # ---- the bulk pipeline on values ------------------------------------------------------------------------------------------------------------------------------------
 # The clauses of C03 are statements about what the param source hands to the runner. They are decided END TO END on a small corpus model: the analysed classes are instantiated
 # and driven through the contract the driver uses (ParamSource(track, params) -> partition(client, clients) -> params() until StopIteration) by the evaluator above; the files are
@@ -3085,6 +3459,8 @@ def run(chk):
     chk.use(ldr_)
     shared("O3.7", line_count_rule, chk, "O3.7", ldr_)
     shared("O3.10", _stale_table_rule, chk, ldr_, io_)
+    shared("O3.11", _skipper_rule, chk, io_, pr)
+    shared("O3.12", _source_per_task_rule, chk, drv_)
 
     # ---- O3.8 bulk counting and percentage cut-off --------------------------------------------------------------------------------------------------------------
     chk.rule("O3.8", "per file the bulk count is the ceiling division of the slice's documents by the bulk size; total_bulks == ceil(all_bulks * p / 100) exactly (also for fractional p); "
@@ -3325,6 +3701,41 @@ def _r3_module_level_invalidation(kind, body, rule=None):
 _R3_BULK_CLASS = ("class IndexDataReader:\n", "@dataclass(frozen=True)\nclass Bulk:\n    docs: int\n    body: bytes = b\"\"\n    tags: list = field(default_factory=list)\n\n\nclass IndexDataReader:\n")
 
 VARIANTS = [
+    # O3.12 (seed m13): one parameter source per task and worker
+    [V("seed m13: parameter sources cached per operation", "break", _D, "            if task not in params_per_task:", "            if task.operation not in params_per_task:", "O3.12"),
+     V("seed m13: parameter sources cached per operation", "break", _D, "                params_per_task[task] = param_source", "                params_per_task[task.operation] = param_source", "O3.12"),
+     V("seed m13: parameter sources cached per operation", "break", _D, "            schedule = schedule_for(task_allocation, params_per_task[task])", "            schedule = schedule_for(task_allocation, params_per_task[task.operation])", "O3.12")],
+    [V("O3.12: parameter sources cached per operation type", "break", _D, "            if task not in params_per_task:", "            if task.operation.type not in params_per_task:", "O3.12"),
+     V("O3.12: parameter sources cached per operation type", "break", _D, "                params_per_task[task] = param_source", "                params_per_task[task.operation.type] = param_source", "O3.12"),
+     V("O3.12: parameter sources cached per operation type", "break", _D, "            schedule = schedule_for(task_allocation, params_per_task[task])", "            schedule = schedule_for(task_allocation, params_per_task[task.operation.type])", "O3.12")],
+    V("O3.12: one source for the whole worker", "break", _D, "            if task not in params_per_task:\n                param_source = track.operation_parameters(self.track, task)\n                params_per_task[task] = param_source\n            schedule = schedule_for(task_allocation, params_per_task[task])",
+      "            if not params_per_task:\n                param_source = track.operation_parameters(self.track, task)\n                params_per_task[task] = param_source\n            schedule = schedule_for(task_allocation, param_source)", "O3.12"),
+    V("O3.12: a parameter source per client (the group's bulk budget is gone)", "break", _D, "            if task not in params_per_task:", "            if client_id not in params_per_task:", "O3.12"),
+    V("O3.12: cache read with .get() and a chained assignment", "keep", _D, "            if task not in params_per_task:\n                param_source = track.operation_parameters(self.track, task)\n                params_per_task[task] = param_source\n            schedule = schedule_for(task_allocation, params_per_task[task])",
+      "            param_source = params_per_task.get(task)\n            if param_source is None:\n                param_source = params_per_task[task] = track.operation_parameters(self.track, task)\n            schedule = schedule_for(task_allocation, param_source)", "O3.12"),
+    [V("O3.12: parameter sources cached per task NAME (unique within a challenge)", "keep", _D, "            if task not in params_per_task:", "            if task.name not in params_per_task:", "O3.12"),
+     V("O3.12: parameter sources cached per task NAME (unique within a challenge)", "keep", _D, "                params_per_task[task] = param_source", "                params_per_task[task.name] = param_source", "O3.12"),
+     V("O3.12: parameter sources cached per task NAME (unique within a challenge)", "keep", _D, "            schedule = schedule_for(task_allocation, params_per_task[task])", "            schedule = schedule_for(task_allocation, params_per_task[task.name])", "O3.12")],
+    V("O3.12: sources created in a first pass over the allocations", "keep", _D, "        params_per_task = {}\n        for client_id, task_allocation in self.task_allocations:\n            task = task_allocation.task\n            if task not in params_per_task:\n                param_source = track.operation_parameters(self.track, task)\n                params_per_task[task] = param_source\n",
+      "        params_per_task = {}\n        for _, ta in self.task_allocations:\n            if ta.task not in params_per_task:\n                params_per_task[ta.task] = track.operation_parameters(self.track, ta.task)\n        for client_id, task_allocation in self.task_allocations:\n            task = task_allocation.task\n", "O3.12"),
+    # O3.11 (seed m15): the skipper's contract on values
+    V("seed m15: seek folded into `if remaining_lines > 0`", "break", _I, "    data_file.seek(offset)\n    # forward the last remaining lines if needed\n    if remaining_lines > 0:\n",
+      "    if remaining_lines > 0:\n        data_file.seek(offset)\n", "O3.11"),
+    V("O3.11: no seek on an exact table hit, spelled as a conditional offset", "break", _I, "    data_file.seek(offset)\n", "    data_file.seek(offset if remaining_lines else 0)\n", "O3.11"),
+    V("O3.11: the table is asked for the line before the target", "break", _I, "            offset, remaining_lines = file_offset_table.find_closest_offset(number_of_lines_to_skip)",
+      "            offset, remaining_lines = file_offset_table.find_closest_offset(number_of_lines_to_skip - 1)", "O3.11"),
+    V("O3.11: early return also for a single line", "break", _I, "    if number_of_lines_to_skip == 0:\n        return\n\n    file_offset_table = FileOffsetTable.read_for_data_file(data_file_path)",
+      "    if number_of_lines_to_skip <= 1:\n        return\n\n    file_offset_table = FileOffsetTable.read_for_data_file(data_file_path)", "O3.11"),
+    V("O3.11: seek after the remaining lines were read", "break", _I, "    data_file.seek(offset)\n    # forward the last remaining lines if needed\n    if remaining_lines > 0:\n        for _ in range(remaining_lines):\n            data_file.readline()\n",
+      "    if remaining_lines > 0:\n        for _ in range(remaining_lines):\n            data_file.readline()\n    data_file.seek(offset)\n", "O3.11"),
+    V("O3.11: loop without the redundant `if`", "keep", _I, "    if remaining_lines > 0:\n        for _ in range(remaining_lines):\n            data_file.readline()\n",
+      "    for _ in range(remaining_lines):\n        data_file.readline()\n", "O3.11"),
+    [V("O3.11: early return respelled, table object used as its own context value", "keep", _I,
+       "    if number_of_lines_to_skip == 0:\n        return\n\n    file_offset_table = FileOffsetTable.read_for_data_file(data_file_path)",
+       "    if not number_of_lines_to_skip:\n        return None\n\n    file_offset_table = FileOffsetTable.read_for_data_file(data_file_path)", "O3.11"),
+     V("O3.11: early return respelled, table object used as its own context value", "keep", _I,
+       "        with file_offset_table:\n            offset, remaining_lines = file_offset_table.find_closest_offset(number_of_lines_to_skip)",
+       "        with file_offset_table as table:\n            offset, remaining_lines = table.find_closest_offset(number_of_lines_to_skip)", "O3.11")],
     V("docs computed directly", "break", _P, "    docs = end_offset_docs - start_offset_docs", "    docs = round(docs_per_client * (end_client_index - start_client_index + 1))", "O3.1"),
     V("end rounds differently", "break", _P, "    end_offset_docs = round(docs_per_client * (end_client_index + 1))", "    end_offset_docs = int(docs_per_client * (end_client_index + 1))", "O3.1"),
     V("offset without k", "break", _P, "    offset_lines = start_offset_docs * source_lines_per_doc", "    offset_lines = start_offset_docs", "O3.1"),
